@@ -10,7 +10,11 @@ R2 order in `ScheduleStep._schedule` (dominance on the CFG): awaited `scheduler.
    `put(JobToken(value=job))`; overrides of `_set_job_directories` run the base implementation on every path.
 R3 `_set_job_directories` issues `mkdir(parents=True, exist_ok=True)` for every allocated location x
    {input, output, tmp} after the names were chosen, awaits all of them before resolving and before returning, and a
-   directory that resolves to None raises before it is stored on the job.
+   directory that resolves to None raises before it is stored on the job.  `awaited` follows the coroutine through
+   create_task, a comprehension / display, append / extend / assignment to a local and plain aliases of it up to an
+   awaited `asyncio.gather`; the local must not be rebound, cleared or truncated between creation and that await.
+   Not decided: completion through `asyncio.wait`, `for t in L: await t`, a TaskGroup, or a helper that does the gather
+   (reported as not awaited); `gather(..., return_exceptions=True)` is accepted although it hides a failed mkdir (C24).
 R4 the registration loop covers the same product (locations of the job x its three directories) and, whenever the
    directory is not yet known on that location, registers it there before moving on.
 """
@@ -322,37 +326,116 @@ def r2(ctx):
 # --------------------------------------------------------------------------- R3
 
 
+_SPAWN = ("asyncio.create_task", "asyncio.ensure_future")
+_COMPS = (ast.ListComp, ast.SetComp, ast.GeneratorExp)
+_DISPLAYS = (ast.List, ast.Tuple, ast.Set)
+
+
+def _is_spawn(p, f, c):
+    return isinstance(c, ast.Call) and (unparse(c.func) in _SPAWN or resolves_to(p, f, c, *_SPAWN))
+
+
+def _awaited_gather(p, f, c):
+    return isinstance(c, ast.Call) and isinstance(parent(c), ast.Await) and (
+        unparse(c.func) == "asyncio.gather" or resolves_to(p, f, c, "asyncio.gather"))
+
+
+def _same_object(f, a: ast.Name, name: str) -> bool:
+    """The local `a` denotes the object bound to local `name`: the same name, or an alias whose plain assignments lead
+    to exactly the expressions `name` is assigned (origins() substitutes `b = a` by the assignments of a)."""
+    if a.id == name:
+        return True
+    mine = {id(o) for o in origins(f, a)}
+    theirs = {id(o) for o in origins(f, ast.copy_location(ast.Name(id=name, ctx=ast.Load()), a))}
+    return bool(mine) and mine == theirs and not any(is_name(o) for o in origins(f, a))
+
+
 def _completion_nodes(p, f, call):
-    """CFG node ids at which the coroutine created by `call` is known to be complete:
-    `await call`, or `await asyncio.gather(*L)` where the (task of the) call was appended to / generated into L."""
+    """(done, kill): `done` = CFG node ids at which the coroutine created by `call` is known to be complete:
+    `await call`, `await asyncio.gather(.., call, ..)`, or `await asyncio.gather(*L)` / `await L` where the coroutine
+    (or its task, or the comprehension / display that generates the tasks) is an argument of the gather, or was
+    appended to / added to / assigned to the local L (or L is a plain alias of it).
+    `kill` = CFG node ids that make L lose tasks (a rebinding of L, `L.clear()`, `del L`, ...): none of them may be
+    reachable from the creation before the completion (checked by the caller)."""
     g = f.cfg
-    cur = call
-    par = parent(cur)
-    if isinstance(par, ast.Await):
-        return g.node_containing(par)
-    # asyncio.create_task(call) / ensure_future(call)
-    if isinstance(par, ast.Call) and cur in par.args and unparse(par.func) in ("asyncio.create_task", "asyncio.ensure_future"):
+    cur, par = call, parent(call)
+    many = False  # cur denotes a collection of awaitables (else: one awaitable)
+    while True:
+        if isinstance(par, ast.Await) and not many:
+            return g.node_containing(par), []
+        if isinstance(par, ast.Call) and cur in par.args and not many and _is_spawn(p, f, par):
+            pass
+        elif isinstance(par, _COMPS) and cur is par.elt and not many:
+            many = True
+        elif isinstance(par, _DISPLAYS) and cur in par.elts and not many:
+            many = True
+        elif isinstance(par, ast.Call) and is_name(par.func) and par.func.id in ("list", "tuple") and par.args == [cur] \
+                and not par.keywords and many:
+            pass
+        else:
+            break
         cur, par = par, parent(par)
-    if isinstance(par, ast.Await):
-        return g.node_containing(par)
-    # L.append(task)
-    if isinstance(par, ast.Call) and isinstance(par.func, ast.Attribute) and par.func.attr == "append" and is_name(par.func.value):
-        lst = par.func.value.id
-        out = []
-        for n in g.nodes.values():
-            for c in n.calls():
-                if unparse(c.func) == "asyncio.gather" and isinstance(parent(c), ast.Await) \
-                        and any(isinstance(a, ast.Starred) and is_name(a.value, lst) for a in c.args):
-                    out.append(n.id)
-        return out
-    # generator / comprehension element that is a starred argument of an awaited gather
-    while par is not None and isinstance(par, (ast.GeneratorExp, ast.ListComp)) and cur is par.elt:
+    # argument of an awaited gather: `gather(x)` for one awaitable, `gather(*xs)` for a collection
+    if many and isinstance(par, ast.Starred):
         cur, par = par, parent(par)
-    if isinstance(par, ast.Starred):
-        cc = parent(par)
-        if isinstance(cc, ast.Call) and unparse(cc.func) == "asyncio.gather" and isinstance(parent(cc), ast.Await):
-            return g.node_containing(cc)
-    return []
+        if _awaited_gather(p, f, par) and cur in par.args:
+            return g.node_containing(par), []
+        return [], []
+    if not many and _awaited_gather(p, f, par) and cur in par.args:
+        return g.node_containing(par), []
+    # bound to a local: L.append(x) / L.add(x) / L.extend(xs) / L += xs / L = x / L: T = x / (L := x)
+    name, binding = None, None
+    if isinstance(par, ast.Call) and isinstance(par.func, ast.Attribute) and is_name(par.func.value) and par.args == [cur] \
+            and par.func.attr in (("extend", "update") if many else ("append", "add")):
+        name, many = par.func.value.id, True
+    elif isinstance(par, ast.AugAssign) and isinstance(par.op, ast.Add) and is_name(par.target) and par.value is cur and many:
+        name = par.target.id
+    elif isinstance(par, ast.Assign) and par.value is cur and len(par.targets) == 1 and is_name(par.targets[0]):
+        name, binding = par.targets[0].id, par
+    elif isinstance(par, ast.AnnAssign) and par.value is cur and is_name(par.target):
+        name, binding = par.target.id, par
+    elif isinstance(par, ast.NamedExpr) and par.value is cur:
+        name, binding = par.target.id, par
+    if name is None:
+        return [], []
+    done, names = [], {name}
+    for n in g.nodes.values():
+        for a in n.walk():
+            if not isinstance(a, ast.Await):
+                continue
+            v = a.value
+            if not many and is_name(v) and _same_object(f, v, name):
+                done.append(n.id)
+                names.add(v.id)
+            if not _awaited_gather(p, f, v):
+                continue
+            for x in v.args:
+                y = x.value if many and isinstance(x, ast.Starred) else x if not many else None
+                if is_name(y) and _same_object(f, y, name):
+                    done.append(n.id)
+                    names.add(y.id)
+    kill = []
+    for nm in names:
+        for d in defs_of(f, nm):
+            if d.stmt is None or d.kind in ("aug", "comp", "except"):
+                continue
+            if d.kind in ("assign", "walrus") and is_name(d.value) and d.value.id in names:
+                continue  # the alias itself
+            if d.stmt is binding:
+                # the creating assignment: re-executing it (a loop without the completion inside) drops the earlier tasks
+                kill.extend(g.node_containing(cur))
+                continue
+            kill.extend(g.ids_of(d.stmt) or g.node_containing(d.stmt))
+    for n in g.nodes.values():
+        for x in n.walk():
+            if isinstance(x, ast.Call) and isinstance(x.func, ast.Attribute) and is_name(x.func.value) \
+                    and x.func.value.id in names and x.func.attr in ("clear", "pop", "remove", "discard"):
+                kill.append(n.id)
+            if isinstance(x, ast.Delete) and any(is_name(t) and t.id in names or
+                                                 isinstance(t, ast.Subscript) and is_name(t.value) and t.value.id in names
+                                                 for t in x.targets):
+                kill.append(n.id)
+    return done, kill
 
 
 def r3(ctx):
@@ -392,8 +475,9 @@ def r3(ctx):
         ctx.ob("R3", "the directories are created after all three names were chosen",
                bool(name_nodes) and all(g.dominates(n, m) for n in name_nodes for m in m_ids), func=f, node=c,
                instance="mkdir:after-naming")
-        done = _completion_nodes(p, f, c)
-        ok_done = bool(done) and all(must_pass(g, m, [g.exit, *resolve_nodes], done) for m in m_ids)
+        done, kill = _completion_nodes(p, f, c)
+        ok_done = bool(done) and all(must_pass(g, m, [g.exit, *resolve_nodes], done) for m in m_ids) \
+            and not (set(kill) & g.reach(m_ids, avoid=done))
         ctx.ob("R3", "all mkdir tasks are awaited before the directories are resolved and before returning", ok_done, func=f,
                node=c, instance="mkdir:awaited",
                message="the mkdir coroutines/tasks are not awaited (gathered) on every path before resolve()/return: the job "
@@ -503,6 +587,12 @@ RULES = [("R1", r1), ("R2", r2), ("R3", r3), ("R4", r4)]
 FLOORS = {"R1": 10, "R2": 10, "R3": 8, "R4": 6}
 
 _MK = "create_tasks.append(asyncio.create_task(StreamFlowPath(directory, context=self.workflow.context, location=location).mkdir(mode=511, parents=True, exist_ok=True)))"
+_MKTASK = "asyncio.create_task(StreamFlowPath(directory, context=self.workflow.context, location=location).mkdir(mode=511, parents=True, exist_ok=True))"
+_MK_LOOP = ("create_tasks = []\n    for location in locations:\n        for directory in [job.input_directory, job.output_directory, job.tmp_directory]:\n"
+            "            " + "create_tasks.append(" + _MKTASK + ")\n")
+_DIRLIST = "[job.input_directory, job.output_directory, job.tmp_directory]"
+_MK_COMP = "create_tasks = [" + _MKTASK + " for location in locations for directory in " + _DIRLIST + "]\n"
+_GATHER = "    await asyncio.gather(*create_tasks)\n"
 _REG_LOOP_HEAD = "    for location in locations:\n        for directory in (job.input_directory, job.output_directory, job.tmp_directory):\n            if not self.workflow.context.data_manager.get_data_locations("
 
 VARIANTS = [
@@ -570,6 +660,28 @@ VARIANTS = [
     V("reorder independent naming statements", SFILE, SETDIRS,
       "job.input_directory = _get_directory(path_processor, job.input_directory, allocation.target)\n    job.output_directory = _get_directory(path_processor, job.output_directory, allocation.target)",
       "job.output_directory = _get_directory(path_processor, job.output_directory, allocation.target)\n    job.input_directory = _get_directory(path_processor, job.input_directory, allocation.target)", None),
+    # ---- the creation tasks built by a comprehension / bound through temporaries (B1-4)
+    V("mkdir tasks built by a list comprehension", SFILE, SETDIRS, _MK_LOOP, _MK_COMP, None),
+    V("comprehension, gathered through an alias", SFILE, SETDIRS, _MK_LOOP + _GATHER,
+      _MK_COMP + "    pending = create_tasks\n    await asyncio.gather(*pending)\n", None),
+    V("generator of mkdir tasks passed straight to gather", SFILE, SETDIRS, _MK_LOOP + _GATHER,
+      "await asyncio.gather(*(" + _MKTASK + " for location in locations for directory in " + _DIRLIST + "))\n", None),
+    V("per-location comprehension extended into the list", SFILE, SETDIRS,
+      "        for directory in [job.input_directory, job.output_directory, job.tmp_directory]:\n            create_tasks.append(" + _MKTASK + ")\n",
+      "        create_tasks.extend([" + _MKTASK + " for directory in " + _DIRLIST + "])\n", None),
+    V("per-location comprehension gathered inside the loop", SFILE, SETDIRS, _MK_LOOP + _GATHER,
+      "for location in locations:\n        create_tasks = [" + _MKTASK + " for directory in " + _DIRLIST + "]\n        await asyncio.gather(*create_tasks)\n", None),
+    V("comprehension of mkdir tasks never gathered", SFILE, SETDIRS, _MK_LOOP + _GATHER, _MK_COMP, "R3"),
+    V("comprehension rebuilt per location, only the last one gathered", SFILE, SETDIRS, _MK_LOOP,
+      "for location in locations:\n        create_tasks = [" + _MKTASK + " for directory in " + _DIRLIST + "]\n", "R3"),
+    V("task list truncated before the gather", SFILE, SETDIRS, _GATHER, "    create_tasks = create_tasks[:1]\n" + _GATHER, "R3"),
+    V("task list cleared before the gather", SFILE, SETDIRS, _GATHER, "    create_tasks.clear()\n" + _GATHER, "R3"),
+    V("another (empty) list is gathered", SFILE, SETDIRS, _MK_LOOP + _GATHER,
+      _MK_COMP + "    pending = []\n    await asyncio.gather(*pending)\n", "R3"),
+    V("comprehension over the first location only", SFILE, SETDIRS, _MK_LOOP,
+      _MK_COMP.replace("for location in locations ", "for location in locations[:1] "), "R3"),
+    V("comprehension without the tmp directory", SFILE, SETDIRS, _MK_LOOP,
+      _MK_COMP.replace(", job.tmp_directory]", "]"), "R3"),
     V("conditional expression in _get_directory", SFILE, GETDIR, "return directory or path_processor.join(target.workdir, utils.random_name())",
       "fresh = path_processor.join(target.workdir, utils.random_name())\n    return directory if directory else fresh", None),
 ]
